@@ -1,4 +1,6 @@
 """C20 - Fourier layers are shift-equivariant, resolution-consistent convolutions."""
+import contextlib
+
 import numpy as np
 import torch
 from hypothesis import strategies as st
@@ -13,7 +15,10 @@ RULE = ("Hypothesis draws layer/FNO configurations: spatial dim 1-3, per-axis re
         "shifts, float64 random kernels and fields; sub-case 'resolution' draws a 1-D layer, a "
         "band-limited trigonometric polynomial and a refinement factor m. Oracles: "
         "L(roll(x,s)) == roll(L(x),s) (<=1e-9), L(x_fine)[::m] == L(x_coarse), input tensor "
-        "bitwise unchanged. Non-trivial: a non-zero shift and (dim>=2 or modes != available "
+        "bitwise unchanged; histories (rng mod 3): fresh object with gradient tracking / under "
+        "torch.no_grad() / no_grad evaluation, then new weights, then the relations on the same "
+        "object; and a freshly built object loading the used object's state_dict returns the same "
+        "output (<=1e-12). Non-trivial: a non-zero shift and (dim>=2 or modes != available "
         "or an odd resolution), or a resolution case with m>=2 and degree>=1; distinct = spec "
         "hash without the rng seed.")
 ASSUMPTIONS = ["batch normalisation (space_resolution) excluded: the property lists linear/skip only",
@@ -134,6 +139,30 @@ def _apply(model, x, in_space):
     return out.as_tensor
 
 
+def _history(spec):
+    """0: one gradient-tracking evaluation of a fresh object; 1: evaluation under torch.no_grad();
+    2: no_grad evaluation, then new weights, then the relations under no_grad on the same object."""
+    return spec.get("hist", spec["rng"] % 3)
+
+
+def _twin_check(spec, ctx, model, x, y, in_space, feat, hist):
+    """a freshly built object that loads the state_dict of the used one computes the same output (the
+    state_dict is the whole state of the operator)."""
+    gen2 = torch.Generator().manual_seed(spec["rng"] + 1)
+    with ctx.lib("construct(twin)", feature=spec["kind"]):
+        twin, _, _ = _build(spec, gen2)
+        twin.load_state_dict(model.state_dict())
+    with ctx.lib("forward(twin)", feature=spec["kind"]), torch.no_grad():
+        yt = _apply(twin, x, in_space).detach()
+    if tuple(yt.shape) != tuple(y.shape):
+        return
+    err = float((yt - y).abs().max())
+    scale = max(1.0, float(y.abs().max()))
+    if not np.isfinite(err) or err > 1e-12 * scale:
+        ctx.violation("state-dependence", feat + ("|history" if hist == 2 else ""),
+                      f"a fresh object with the same state_dict differs by {err:.3e} (scale {scale:.2e}) from the used one")
+
+
 def _run_shift(spec, ctx):
     gen = torch.Generator().manual_seed(spec["rng"])
     with ctx.lib("construct", feature=spec["kind"]):
@@ -143,12 +172,19 @@ def _run_shift(spec, ctx):
         x.requires_grad_(True)
     x_before = x.detach().clone()
     dims = tuple(range(1, spec["dim"] + 1))
-    with ctx.lib("forward", feature=spec["kind"]):
+    hist = _history(spec)
+    feat = f"{spec['kind']}-dim{min(spec['dim'], 2)}"
+    if hist == 2:
+        # the same object was evaluated (without gradient tracking) before its weights changed
+        with ctx.lib("forward(before the weights change)", feature=spec["kind"]), torch.no_grad():
+            _apply(model, x.detach(), in_space)
+        _randomise(model, gen)
+    with ctx.lib("forward", feature=spec["kind"]), (torch.no_grad() if hist else contextlib.nullcontext()):
         y = _apply(model, x, in_space)
         xs = torch.roll(x.detach(), shifts=tuple(spec["shift"]), dims=dims)
         xs_before = xs.clone()
         ys = _apply(model, xs, in_space)
-    feat = f"{spec['kind']}-dim{min(spec['dim'], 2)}"
+    _twin_check(spec, ctx, model, x.detach(), y.detach(), in_space, feat, hist)
     if not torch.equal(x.detach(), x_before) or not torch.equal(xs, xs_before):
         ctx.violation("input-modified", feat, "forward changed its input tensor")
     if tuple(y.shape[:-1]) != tuple(x.shape[:-1]):
@@ -166,7 +202,7 @@ def _run_shift(spec, ctx):
     pad = any(m > a for m, a in zip(spec["modes"], avail))
     odd = any(n % 2 for n in spec["res"])
     nz = any(spec["shift"])
-    classes = [f"dim{spec['dim']}", spec["kind"]]
+    classes = [f"dim{spec['dim']}", spec["kind"], f"hist{hist}"]
     classes += ["truncate"] if trunc else []
     classes += ["pad"] if pad else []
     classes += ["odd"] if odd else []
@@ -197,9 +233,16 @@ def _run_resolution(spec, ctx):
 
     x1, x2 = field(n1), field(n2)
     x1b, x2b = x1.clone(), x2.clone()
-    with ctx.lib("forward", feature="layer"):
+    hist = _history(spec)
+    if hist == 2:
+        # the coarse resolution was already evaluated (without gradient tracking) before the weights changed
+        with ctx.lib("forward(before the weights change)", feature="layer"), torch.no_grad():
+            layer(x1)
+        _randomise(layer, gen)
+    with ctx.lib("forward", feature="layer"), (torch.no_grad() if hist else contextlib.nullcontext()):
         y1 = layer(x1).detach()
         y2 = layer(x2).detach()
+    _twin_check(dict(spec, kind="layer", modes=[spec["modes"]]), ctx, layer, x1, y1, None, "layer-dim1", hist)
     if not torch.equal(x1, x1b) or not torch.equal(x2, x2b):
         ctx.violation("input-modified", "layer-dim1", "forward changed its input tensor")
     # The layer is a Fourier multiplier in *unnormalised* torch.fft convention applied with
@@ -213,7 +256,7 @@ def _run_resolution(spec, ctx):
     if not np.isfinite(err) or err > 1e-9 * scale:
         ctx.violation("resolution-consistency", "layer-dim1",
                       f"max|L(x_fine)[::{m}]-L(x_coarse)|={err:.3e} n1={n1} modes={spec['modes']} deg={deg}")
-    return {"nontrivial": m >= 2 and deg >= 1, "classes": ["resolution", f"m{m}"],
+    return {"nontrivial": m >= 2 and deg >= 1, "classes": ["resolution", f"m{m}", f"hist{hist}"],
             "summary": {"max_err": err, "scale": scale}}
 
 
